@@ -237,7 +237,7 @@ def program_of(evs):
 
 def judge_only(ctx, trace, source, kd):
     cfg = t_cfg(ctx, kd)
-    v = lib.judge(ctx, MODULE_T, cfg, trace, max_events=2500)
+    v = lib.judge(ctx, MODULE_T, cfg, trace, max_events=2500 if ctx.quick else 10000)
     v["violations"] = sorted(set(v["violations"]))
     return v
 
